@@ -33,6 +33,17 @@ EXTRA = [   # nested / context-key-bound combinations that the Library kinds do 
     ({"processor": "FloatBasicProbe", "context_key": "basic"}, "float", "float", {"basic"}),
     ({"processor": "template:\"{a}-{b}\":joined"}, "any", "any", {"joined"}),
     ({"processor": "rename:a.b:c.d"}, "any", "any", {"c.d"}),
+    # components without a docstring (cls.__doc__ is None), plain and wrapped
+    ({"processor": "VUndocSource"}, "none", "float", set()),
+    ({"processor": "VUndocSink"}, "float", "float", set()),
+    ({"processor": "VUndocPayloadSource"}, "none", "float", {"b"}),
+    ({"processor": "VUndocPayloadSink"}, "float", "float", set()),
+    ({"processor": "VUndocProbe", "context_key": "u"}, "float", "float", {"u"}),
+    ({"processor": "VUndocOperation"}, "float", "float", set()),
+    ({"processor": "slice:VUndocOperation:FloatDataCollection"}, "coll", "coll", set()),
+    ({"processor": "slice:VUndocProbe:FloatDataCollection", "context_key": "u"}, "coll", "coll", {"u"}),
+    ({"processor": "VUndocSource", "derive": {"parameter_sweep": {"parameters": {"a": "t"}, "variables": {"t": {"values": [1.0]}}, "collection": "FloatDataCollection"}}},
+     "none", "coll", {"t_values"}),
 ]
 
 
